@@ -91,7 +91,11 @@ func events(evs []abci.Event) []Event {
 	for _, e := range evs {
 		x := Event{Type: e.Type, Attrs: map[string]string{}}
 		for _, a := range e.Attributes {
-			x.Attrs[string(a.Key)] = string(a.Value)
+			if e.Type == "allegation_tracker" {
+				x.Attrs[string(a.Key)] = hex.EncodeToString(a.Value) // raw addresses and status byte
+			} else {
+				x.Attrs[string(a.Key)] = string(a.Value)
+			}
 		}
 		out = append(out, x)
 	}
